@@ -165,5 +165,21 @@ class SeedCache:
         return self.path
 
     def copy_to(self, dest: str) -> str:
-        shutil.copytree(self.ensure(), dest, dirs_exist_ok=True)
+        """Seed `dest`; if the flag set itself is rejected by mypy (conflicting flags of a corpus case)
+        there is nothing to seed and the case simply runs cold."""
+        try:
+            src = self.ensure()
+        except RuntimeError:
+            os.makedirs(dest, exist_ok=True)
+            return dest
+        shutil.copytree(src, dest, dirs_exist_ok=True)
         return dest
+
+
+def seed_for(flags: list[str], prefix: str = "f") -> SeedCache:
+    """Seed cache keyed by the exact flag list (per-module options are part of every module's
+    cache key, so one typeshed seed per option set)."""
+    import hashlib
+
+    h = hashlib.sha1("\0".join(flags).encode()).hexdigest()[:12]
+    return SeedCache("%s-%s" % (prefix, h), list(flags))
